@@ -64,6 +64,9 @@ func (s *Sim) trigger(r *OpRule, phase string) {
 		return
 	}
 	s.fire(r.Trigger.Action, r.Trigger.Delay)
+	if r.Trigger.Follow != nil {
+		s.fire(*r.Trigger.Follow, r.Trigger.Delay+r.Trigger.FollowDelay)
+	}
 }
 
 // exec runs one store operation of an election object. apply is called at the
